@@ -632,6 +632,7 @@ Proof. intros H s. rewrite H. repeat split; auto. Qed.
 Lemma sm_lookup_view q : sm (lookup_view cfg q).
 Proof.
   unfold lookup_view. destruct (decide_early cfg q); [apply sm_raw; reflexivity|]. destruct (r_sid q) as [[i|]|]; try (apply sm_raw; reflexivity).
+  destruct (match r_method q with MOptions => true | _ => false end); [apply sm_raw; reflexivity|].
   apply sm_bind; [apply sm_raw; reflexivity|]. intros it. destruct (negb it); [apply sm_raw; reflexivity|].
   apply sm_bind.
   - unfold get_socket. apply sm_bind; [apply sm_raw; reflexivity|]. intros it2. destruct (negb it2); [apply sm_raw; reflexivity|].
